@@ -183,6 +183,14 @@ def cancel_clears_state(cx, rec):
     F = cx.F
     reps = {F.owner_fn(f).path for f in C.fns_constructing(F, r'^commands::PeerCmd$', 'PieceCancel')}
     n = 0
+    # a builder that is handed the done/cancel flag by its only callers' own parameter is looked through
+    for _ in range(2):
+        for rp in sorted(reps):
+            cs = C.callers(F, rp)
+            if cs and all(any(a[0] == 'var' and C.is_param(f, a) and mirq.const_of(a) is None and
+                              any(n2 == a[1] and t == 'bool' for n2, l, t in C.params_of(F.owner_fn(f))) for a in f.expr_call(bb)[2][1:])
+                          for f, bb in cs):
+                reps = (reps - {rp}) | {F.owner_fn(f).path for f, bb in cs}
     for rp in reps:
         for f, bb in C.callers(F, rp):
             args = f.expr_call(bb)[2]
